@@ -7,6 +7,7 @@ CONSTANTS
   Horizon = 5
   HeadCheck = TRUE
   MaxHold = 0
+  CritOn = FALSE
   ExportOn = TRUE
   SampleMod = 50
   MaxAnn = 6
